@@ -13,6 +13,7 @@ import (
 	clienttypes "github.com/cosmos/ibc-go/v11/modules/core/02-client/types"
 	connectiontypes "github.com/cosmos/ibc-go/v11/modules/core/03-connection/types"
 	"github.com/cosmos/ibc-go/v11/modules/core/04-channel/types"
+	ibcerrors "github.com/cosmos/ibc-go/v11/modules/core/errors"
 	"github.com/cosmos/ibc-go/v11/modules/core/exported"
 )
 
@@ -60,6 +61,13 @@ func (k *Keeper) TimeoutPacket(
 	}
 
 	// check that timeout height or timeout timestamp has passed on the other end
+	// The timeout is evaluated against the proof height, so the proof height must be a height the client has
+	// actually reached. Clients that keep consensus states reject unknown heights themselves, but the localhost
+	// client verifies against the chain's current state whatever height is given.
+	if latestHeight := k.clientKeeper.GetClientLatestHeight(ctx, connectionEnd.ClientId); proofHeight.GT(latestHeight) {
+		return "", errorsmod.Wrapf(ibcerrors.ErrInvalidHeight, "proof height %s is greater than the latest height %s of client %s", proofHeight, latestHeight, connectionEnd.ClientId)
+	}
+
 	proofTimestamp, err := k.clientKeeper.GetClientTimestampAtHeight(ctx, connectionEnd.ClientId, proofHeight)
 	if err != nil {
 		return "", err
